@@ -24,6 +24,7 @@ pub mod c18;
 pub mod c19;
 pub mod c20;
 pub mod deep;
+pub mod defaults;
 
 pub type MonFn = fn(&mut Ctx);
 
@@ -46,12 +47,16 @@ pub fn registry() -> Vec<(&'static str, &'static str, MonFn)> {
         ("c04_deep", "C04", deep::quant as MonFn),
         ("c09_deep", "C09", deep::sets as MonFn),
         ("c15_large", "C15", deep::dddmp_large as MonFn),
+        ("c02_api", "C02", defaults::boolean as MonFn),
+        ("c04_api", "C04", defaults::quant as MonFn),
+        ("c09_api", "C09", defaults::sets as MonFn),
         ("c02_wide", "C02", deep::wide_connectives as MonFn),
         ("c04_wide", "C04", deep::wide_quant as MonFn),
         ("c03_hist", "C03", c03::histories as MonFn),
         ("c05_hist", "C05", c05::histories as MonFn),
         ("c05_bg", "C05", c05::background_gc as MonFn),
         ("c05_probe", "C05", c05::probe as MonFn),
+        ("c05_probe_large", "C05", c05::probe_large as MonFn),
         ("c06_diff", "C06", c06::differential as MonFn),
         ("c06_subst_ids", "C06", c06::subst_ids as MonFn),
         ("c14_sweep", "C14", c14::sweep as MonFn),
